@@ -14,7 +14,7 @@ def exhaustive(ctx, pid):
         cfg, inv = DEV[pid]
         ctx.tlc_mc("Durable.tla", cfg, timeout=300, expect_violation=inv, count=False)
 
-def run_file(ctx, mode, nscen, ntrials, tag, timeout=900):
+def run_file(ctx, mode, nscen, ntrials, tag, timeout=3000):
     drv = ctx.go_build("dbfile")
     scratch = os.path.join(ctx.work, "files-" + tag)
     os.makedirs(scratch, exist_ok=True)
